@@ -297,13 +297,14 @@ def prepare(tools, p, d, want_interp=True):
         return r["rc"] == 0 and not r["timeout"] and os.path.exists(os.path.join(d, "p.exe")) and \
             os.path.exists(os.path.join(d, "p.ao"))
     bc = tools.build_cmd(lib)
-    r = runb(bc, cwd=d, env=tools.env, timeout=90)
+    t_build, t_base = p.get("timeouts", (60, 20))
+    r = runb(bc, cwd=d, env=tools.env, timeout=t_build)
     if not built(r):
         # The compiler is a collected program too: does it build with its collector off?
         for fn in ("p.exe", "p.ao", "p.c"):
             if os.path.exists(os.path.join(d, fn)):
                 os.unlink(os.path.join(d, fn))
-        r2 = runb(bc[:1] + ["-Wno-gc"] + bc[1:], cwd=d, env=tools.env, timeout=90)
+        r2 = runb(bc[:1] + ["-Wno-gc"] + bc[1:], cwd=d, env=tools.env, timeout=t_build)
         if not built(r2):
             p["skip"] = "does not build (rc %s): %s" % (r["rc"], (r["out"] + r["err"])[-300:].decode("utf-8", "replace"))
             return p
@@ -319,7 +320,7 @@ def prepare(tools, p, d, want_interp=True):
         for rt in routes:
             if rt in runs:
                 continue
-            runs[rt] = tools.run(rt, p, timeout=60)
+            runs[rt] = tools.run(rt, p, timeout=t_base)
         if not want_interp or agrees(p, runs["interp-nogc"]) or not chk:
             break
         # the collector-off run already fails under -Wcheck (an interpreter assertion, nothing to do with
@@ -337,11 +338,18 @@ def prepare(tools, p, d, want_interp=True):
                 p["natural"].append((rt, "natural:" + c[0],
                                      "the unforced run differs from the run with the collector off (-Wno-gc): " + c[1]))
                 continue
+        if rt == "exe" and faulty(b) and p["expect_out"] is not None and p["expect_status"] == "ok" and \
+                ("interp-nogc" not in runs or agrees(p, runs["interp-nogc"])):
+            # the compiled program has no collector-off switch; a storage fault in a program whose expected
+            # behaviour is known (and met by the interpreter with its collector off) is the run time's doing
+            p["natural"].append((rt, "natural:fault", "the unforced compiled program ends in a fault (rc %s, %r); expected "
+                                 "output %r" % (b["rc"], (b["out"] + b["err"])[-200:], p["expect_out"][:80])))
+            continue
         if not agrees(p, b):
             p["dropped"][rt] = "unforced run disagrees with the oracle / faults (matter of C01/C03, not of collection)"
             continue
         if p["expect_out"] is None:
-            b2 = tools.run(rt, p, timeout=60)
+            b2 = tools.run(rt, p, timeout=t_base)
             if b2["out"] != b["out"] or b2["rc"] != b["rc"]:
                 p["dropped"][rt] = "not reproducible"
                 continue
@@ -369,7 +377,7 @@ def calibrate(tools, p):
     lib = p.get("lib", "aldor")
     est = {}
     fails = []
-    for rt, k in (("exe", 100), ("interp-ao", 1000), ("interp-as", 2000)):
+    for rt, k in (("exe", 100), ("interp-ao", 150), ("interp-as", 2000)):
         if rt not in p["base"]:
             continue
         t0 = p["base"][rt]["wall"]
@@ -424,7 +432,7 @@ def make_jobs(progs, tier, rng):
     quick = tier == "quick"
     ks = K_QUICK if quick else K_THOROUGH
     cap_exe = 45 if quick else 400
-    cap_int = 170 if quick else 900
+    cap_int = 55 if quick else 900
     usable = [p for p in progs if not p.get("skip")]
 
     def cheapest(rt, fam, n):
@@ -489,8 +497,14 @@ def run(rep, tier):
         repo_programs(rng, n_repo)
     t_gen = time.time() - t_start
 
+    prep_deadline = time.time() + (60 if quick else 600)
+
     def prep(ip):
         i, p = ip
+        if time.time() > prep_deadline:
+            p["skip"] = "not prepared: the programs before it used up the preparation time (builds / unforced runs hang?)"
+            return p, [], []
+        p["timeouts"] = (40, 15) if quick else (90, 30)
         prepare(tools, p, "%s/p%03d" % (base, i))
         if p.get("skip"):
             return p, p.get("natural", []), []
@@ -536,7 +550,7 @@ def run(rep, tier):
         if time.time() > deadline and j["prio"] > 0:
             return j, None
         p = j["p"]
-        r = tools.run(j["route"], p, sched=(j["k"], j["j"]), timeout=max(90, 6 * j["cost"] + 30))
+        r = tools.run(j["route"], p, sched=(j["k"], j["j"]), timeout=max(60, 3 * j["cost"] + 30))
         return j, r
     suspects = []
     with concurrent.futures.ThreadPoolExecutor(C.NCPU) as ex:
@@ -552,8 +566,8 @@ def run(rep, tier):
                 suspects.append(j)
             elif c:
                 failures.append({"p": j["p"], "route": j["route"], "sched": (j["k"], j["j"]), "kind": c[0], "detail": c[1]})
-    for j in suspects[:4]:       # a time-out under load is not yet a hang: once more, alone, three times the limit
-        r = tools.run(j["route"], j["p"], sched=(j["k"], j["j"]), timeout=3 * max(90, 6 * j["cost"] + 30))
+    for j in suspects[:2]:       # a time-out under load is not yet a hang: once more, alone, three times the limit
+        r = tools.run(j["route"], j["p"], sched=(j["k"], j["j"]), timeout=max(60, 3 * j["cost"] + 30))
         c = classify(r, j["p"]["base"][j["route"]])
         if c:
             failures.append({"p": j["p"], "route": j["route"], "sched": (j["k"], j["j"]), "kind": c[0], "detail": c[1]})
@@ -586,12 +600,12 @@ def run(rep, tier):
                     "forced_runs_by_route_and_k": {"%s k=%d" % k: v for k, v in sorted(ran_k.items())},
                     "schedules_skipped_too_slow(est)": len(too_slow),
                     "schedules_not_admitted(budget)": not_admitted, "schedules_cut_by_deadline": late,
-                    "timeouts_rechecked": len(suspects),
+                    "timeouts_rechecked": ["%s %s %d:%d" % (j["p"]["name"], j["route"], j["k"], j["j"]) for j in suspects],
                     "hook_sanity": hook_res},
                 timings_s={"generate": round(t_gen, 1), "build+baseline+calibrate": round(t_prep, 1),
                            "schedule_runs": round(t_run, 1),
                            "longest_run": round(max(hist_cost), 1) if hist_cost else 0})
-    if len(usable) * 2 < len(progs):
+    if len(usable) * 2 < len(progs) and not rep.violations and not rep.known:
         rep.violation("more than half of the programs were unusable (do not build / disagree with their oracle before any "
                       "forced collection)", {"skipped": skipped}, no_input=True)
     if sum(done.values()) < (60 if quick else 1500):
